@@ -393,6 +393,102 @@ fn l4(args: &Args, rep: &mut Report) {
     rep.add("mux_header_space_per_state", total as u64 / args.nshards as u64);
 }
 
+/// L5: RPC requests. A raw mux peer opens a consensus / ping stream of a real rpc::Service and sends a request frame
+/// whose announced length is absurd, or whose body is malformed. The service must neither panic nor allocate the
+/// announced size, and keeps serving (a following valid ping is answered... the connection may also be dropped).
+fn l5(args: &Args, rep: &mut Report) {
+    struct Probe;
+    #[async_trait::async_trait]
+    impl verif::ConsensusProbe for Probe {
+        async fn on_request(&self, _ctx: &ctx::Ctx, _msg: validator::Signed<validator::ConsensusMsg>) {}
+        fn max_req_size(&self) -> usize {
+            10_000
+        }
+    }
+    let mut rng = rng_for(args.seed, args.shard, 105, 0);
+    let valid = verif::wire_encode::consensus_req(rng.gen());
+    for case in 0..args.pick(150, 4000) {
+        let announced: u32 = match rng.gen_range(0..7) {
+            0 => 0,
+            1 => 10_000,
+            2 => 10_001,
+            3 => u32::MAX,
+            4 => 1 << 30,
+            5 => valid.len() as u32,
+            _ => rng.gen(),
+        };
+        let body: Vec<u8> = match rng.gen_range(0..4) {
+            0 => vec![],
+            1 => valid.clone(),
+            2 => mutate(&mut rng, &valid, &valid),
+            _ => (0..rng.gen_range(0..200)).map(|_| rng.gen()).collect(),
+        };
+        let stream_id: u16 = rng.gen_range(0..5);
+        let base = alloc::start();
+        let r = catch(|| {
+            let rt = tokio::runtime::Builder::new_current_thread().enable_time().start_paused(true).build().unwrap();
+            rt.block_on(async {
+                let (a, mut b, _st) = duplex(case, Script::default(), Script::default(), Tamper::None, false);
+                let server = tokio::spawn(async move {
+                    let root = ctx::root();
+                    verif::run_rpc_server(&root, a, Some((&Probe, limiter::Rate::INF))).await
+                });
+                let hs = verif::encode_mux_handshake(&[(verif::CAP_CONSENSUS, 10), (verif::CAP_PING, 10)], &[]);
+                let _ = b.write_all(&(hs.len() as u32).to_le_bytes()).await;
+                let _ = b.write_all(&hs).await;
+                let mut l = [0u8; 4];
+                let _ = b.read_exact(&mut l).await;
+                let mut peer = vec![0u8; (u32::from_le_bytes(l) as usize).min(10_000)];
+                let _ = b.read_exact(&mut peer).await;
+                let open = stream_id;
+                let data = 0b0100_0000_0000_0000u16 | stream_id;
+                let close = 0b1000_0000_0000_0000u16 | stream_id;
+                let _ = b.write_all(&open.to_le_bytes()).await;
+                let mut frame = announced.to_le_bytes().to_vec();
+                frame.extend(&body);
+                for chunk in frame.chunks(60_000) {
+                    let _ = b.write_all(&data.to_le_bytes()).await;
+                    let _ = b.write_all(&(chunk.len() as u16).to_le_bytes()).await;
+                    let _ = b.write_all(chunk).await;
+                }
+                let _ = b.write_all(&close.to_le_bytes()).await;
+                // let the service work on it in virtual time, then hang up
+                let _ = tokio::time::timeout(std::time::Duration::from_secs(60), async {
+                    let mut buf = [0u8; 1024];
+                    while let Ok(n) = b.read(&mut buf).await {
+                        if n == 0 {
+                            break;
+                        }
+                    }
+                })
+                .await;
+                drop(b);
+                tokio::time::timeout(std::time::Duration::from_secs(3600), server).await
+            })
+        });
+        let peak = alloc::peak_above(base);
+        rep.evaluations += 1;
+        rep.count("rpc_request_inputs");
+        rep.max("max_rpc_allocation_bytes", peak as u64);
+        let replay = json!({"stage": "L5", "case": case, "announced": announced, "body_len": body.len()});
+        match r {
+            Err(p) => rep.violation(format!("panic|{}|rpc-request", p.loc()), format!("request frame announcing {announced} bytes: {}", p.message), replay.clone()),
+            Ok(Ok(Err(join))) if join.is_panic() => {
+                let (loc, msg) = vcommon::take_last_panic().unwrap_or_default();
+                let loc = match loc.find("/repo/") { Some(i) => loc[i + 6..].to_string(), None => loc };
+                rep.violation(format!("panic|{loc}|rpc-request"), format!("request frame announcing {announced} bytes with a body of {} bytes panicked the service: {msg}", body.len()), replay.clone());
+            }
+            Ok(Err(_)) => rep.count("rpc_service_still_running_after_hangup"),
+            _ => rep.count("rpc_service_ended"),
+        }
+        // whatever the peer announces, the service may not allocate more than its request limit (+ mux buffers)
+        if peak > 10_000 + 160 * 1024 * 4 + (1 << 20) {
+            rep.violation("allocation|unbounded|rpc-request".to_string(), format!("a request frame announcing {announced} bytes ({} actually sent) made the service allocate {peak} bytes; max_req_size is 10000", body.len()), replay);
+        }
+        rep.distinct(vcommon::hash_of(&(announced, body.len(), stream_id, case)));
+    }
+}
+
 pub fn run(args: &Args, rep: &mut Report) {
     rep.rule = "one evaluation = one hostile input at one protocol stage: L0 a byte string offered to one of the message decoders (random / mutated valid / structurally valid \
                 with extreme field values), L1 a length-prefixed frame, L2 a garbage noise handshake message, L4 one of all 65536 mux frame headers in 2-4 connection states; \
@@ -403,6 +499,7 @@ pub fn run(args: &Args, rep: &mut Report) {
         Some("frames") => {
             l1(args, rep);
             l2(args, rep);
+            l5(args, rep);
         }
         Some("mux-headers") => l4(args, rep),
         m => panic!("unknown C10 mode {m:?}"),
